@@ -789,6 +789,7 @@ func c12Hist(args []string) error {
 	n := fs.Int("n", 3000, "operations per history")
 	nkeys := fs.Int("keys", 600, "size of the key universe")
 	out := fs.String("out", "-", "")
+	part := fs.String("part", "all", "random | threshold | all")
 	fs.Parse(args)
 	w, err := openOut(*out)
 	if err != nil {
@@ -808,6 +809,9 @@ func c12Hist(args []string) error {
 	}
 	ev := 0
 	for di, dist := range dists {
+		if *part == "threshold" {
+			break
+		}
 		keys := make([]hkey, *nkeys+1)
 		for i := 1; i <= *nkeys; i++ {
 			keys[i] = hkey{i, dist(i)}
@@ -880,6 +884,118 @@ func c12Hist(args []string) error {
 					emit(1, k, j, []int{})
 				}
 			}
+		}
+	}
+	// Threshold scenarios: the table doubles when an insertion finds len >= 6.5 x #chains (13, 26, 52).
+	// For every way of distributing the live keys over the hash residues (all compositions for the 2 -> 4
+	// doubling, seeded samples biased towards exactly full chains for 4 -> 8 and 8 -> 16), insert one more key
+	// of every residue, then look every key up and record the complete order.
+	if *part != "random" {
+		d := starlark.NewDict(0)
+		forceOrder := false
+		emit := func(op, k, v int, res []int) {
+			ev++
+			o := obj{"n": ev, "dist": 9, "op": op, "k": k, "v": v, "res": res, "len": d.Len()}
+			ks := d.Keys()
+			if len(ks) > 0 {
+				o["first"] = keyID(ks[0])
+				o["last"] = keyID(ks[len(ks)-1])
+			} else {
+				o["first"] = 0
+				o["last"] = 0
+			}
+			if forceOrder || ev%256 == 0 {
+				o["order"] = iterKeys(d)
+			}
+			nw.write(o)
+		}
+		scenario := func(classes int, counts []int, extra int, holes int) {
+			d = starlark.NewDict(0)
+			emit(0, 0, 0, []int{})
+			// key id = class + classes*j + 1, hash = class + 64*j: equal low bits within a class
+			var keys []hkey
+			for c, n := range counts {
+				for j := 0; j < n; j++ {
+					keys = append(keys, hkey{c + classes*j + 1, uint32(c + 64*j)})
+				}
+			}
+			rnd.Shuffle(len(keys), func(i, j int) { keys[i], keys[j] = keys[j], keys[i] })
+			for i, k := range keys {
+				d.SetKey(k, starlark.MakeInt(i))
+				emit(1, k.id, i, []int{})
+			}
+			// optional churn just below the threshold: delete and re-insert (leaves holes in the old chains)
+			for h := 0; h < holes && h < len(keys); h++ {
+				k := keys[rnd.Intn(len(keys))]
+				v, found, _ := d.Delete(k)
+				if found {
+					emit(2, k.id, 0, []int{intOf(v)})
+				} else {
+					emit(2, k.id, 0, []int{})
+				}
+				d.SetKey(k, starlark.MakeInt(1000+h))
+				emit(1, k.id, 1000+h, []int{})
+			}
+			nk := hkey{extra + classes*40 + 1, uint32(extra + 64*40)}
+			d.SetKey(nk, starlark.MakeInt(777))
+			emit(1, nk.id, 777, []int{})
+			all := append(append([]hkey{}, keys...), nk)
+			for i, k := range all {
+				forceOrder = i == len(all)-1
+				v, found, _ := d.Get(k)
+				if found {
+					emit(5, k.id, 0, []int{intOf(v)})
+				} else {
+					emit(5, k.id, 0, []int{})
+				}
+			}
+			forceOrder = false
+			// a second insertion of the same key must update in place
+			d.SetKey(nk, starlark.MakeInt(778))
+			forceOrder = true
+			emit(1, nk.id, 778, []int{})
+			forceOrder = false
+		}
+		// all compositions of 13 into 4 residues (2 -> 4 chains)
+		for a := 0; a <= 13; a++ {
+			for b := 0; a+b <= 13; b++ {
+				for c := 0; a+b+c <= 13; c++ {
+					for extra := 0; extra < 4; extra++ {
+						scenario(4, []int{a, b, c, 13 - a - b - c}, extra, 0)
+					}
+				}
+			}
+		}
+		// sampled compositions of 26 into 8 residues and of 52 into 16, biased towards full chains
+		samples := *n / 4
+		for s := 0; s < samples; s++ {
+			classes, total := 8, 26
+			if s%3 == 2 {
+				classes, total = 16, 52
+			}
+			counts := make([]int, classes)
+			target := rnd.Intn(classes)
+			left := total
+			if rnd.Intn(3) != 0 {
+				counts[target] = 8 * (1 + rnd.Intn(2))
+				if counts[target] > left {
+					counts[target] = 8
+				}
+				left -= counts[target]
+			}
+			for left > 0 {
+				c := rnd.Intn(classes)
+				if c == target && rnd.Intn(3) != 0 {
+					continue
+				}
+				counts[c]++
+				left--
+			}
+			extra := target
+			if rnd.Intn(4) == 0 {
+				extra = rnd.Intn(classes)
+			}
+			scenario(classes, counts, extra, rnd.Intn(3))
 		}
 	}
 	fmt.Fprintf(os.Stderr, "logged %d events\n", ev)
